@@ -44,9 +44,16 @@ REF = time.Time("2020-01-01T00:00:00")
 
 
 # ------------------------------------------------------------------ WCS from blocks
-def _block(b):
+def _block(b, box=None):
     """(transform, n_pix, [(kind, unit)] per output)"""
     k = b["kind"]
+    if k == "tab1":
+        # a look-up table defined only around the bounding box of its own axis (default bounds_error=True): evaluating it at a pixel
+        # outside that range - e.g. 0 when the box is offset - raises
+        lo, hi = (0.0, 12.0) if box is None else box
+        pts = np.arange(math.floor(min(lo, hi)) - 1, math.ceil(max(lo, hi)) + 2, dtype=float)
+        vals = b["c"][0] + b["c"][1] * pts + b["c"][2] * pts ** 2
+        return models.Tabular1D(points=pts, lookup_table=vals), 1, [("spectral", "um")]
     if k == "sky":
         t = (models.Shift(-b["crpix"][0]) & models.Shift(-b["crpix"][1]) | models.Scale(b["scale"]) & models.Scale(b["scale"]) |
              models.Pix2Sky_TAN() | models.RotateNative2Celestial(b["lon"], b["lat"], 180.0))
@@ -83,7 +90,13 @@ def _block(b):
 def build(case):
     t, npix, outs = None, 0, []
     for b in case["blocks"]:
-        bt, n, o = _block(b)
+        own_box = None
+        if b["kind"] == "tab1":
+            bx = case.get("bbox_arg") or case.get("bbox")
+            own_box = None if not bx else bx[npix]
+            if case.get("bbox_arg") and case.get("bbox"):
+                own_box = [min(case["bbox"][npix][0], case["bbox_arg"][npix][0]), max(case["bbox"][npix][1], case["bbox_arg"][npix][1])]
+        bt, n, o = _block(b, own_box)
         t = bt if t is None else t & bt
         npix += n
         outs += [(kind, unit, len(outs) + i) for i, (kind, unit) in enumerate(o)]
@@ -399,7 +412,7 @@ def gen(rng, tier):
         blocks, npx = [], 0
         target = rng.choice([1, 2, 2, 3, 3, 4])
         while npx < target:
-            cands = ["spec", "time", "gen", "fan2", "fan3"]
+            cands = ["spec", "time", "gen", "fan2", "fan3", "tab1"]
             if target - npx >= 2:
                 cands += ["sky", "sky", "pair", "slit"]
                 if rng.random() < 0.15:
@@ -439,6 +452,8 @@ def gen(rng, tier):
         case["seed"] = rng.randint(1, 10**6)
         r = rng.random() if "expect" not in case else 1.0
         if r < 0.06:
+            # (a Tabular1D brings a bounding box of its own: not a "no box" WCS)
+            case["blocks"] = [dict(b, kind="spec") if b["kind"] == "tab1" else b for b in case["blocks"]]
             case.update(bbox=None, expect="valueErr", why="no bounding box")
             case.pop("bbox_arg", None)
         elif r < 0.12 and npx > 1:
